@@ -358,9 +358,9 @@ M("C02", "revert-fix-no-unquote", "breaking",
 M("C02", "double-unquote", "breaking",
   [(H, SH, "requested_path = unquote(request.path).lstrip(\"/\")", "requested_path = unquote(unquote(request.path)).lstrip(\"/\")")],
   "P4:server.handler:StaticFileHandler.handle:double-percent-decoding")
-M("C02", "upload-containment-diverges", "breaking",
+M("C14", "upload-containment-string-prefix", "breaking",
   [(H, "FileUploadHandler._is_safe_path", "            file_path.relative_to(self.upload_dir)\n            return True\n", "            return str(file_path).startswith(str(self.upload_dir))\n")],
-  "P5:")
+  "U1:")
 M("C02", "benign-is-relative-to", "benign",
   [(H, "StaticFileHandler._is_safe_path", "        try:\n            # Check if the resolved path is relative to document_root\n            file_path.relative_to(self.document_root)\n            return True\n        except ValueError:\n            # Path is not within document_root\n            return False\n", "        return file_path.is_relative_to(self.document_root)\n"),
    (H, "FileUploadHandler._is_safe_path", "        try:\n            file_path.relative_to(self.upload_dir)\n            return True\n        except ValueError:\n            return False\n", "        return file_path.is_relative_to(self.upload_dir)\n")])
@@ -652,9 +652,9 @@ M("C03", "verify-new-outcome-unhandled", "breaking",
 M("C03", "redirect-hop-direct-connect", "breaking",
   [(SS, "GeminiClient._get_with_redirects", "            return await self._get_with_redirects(\n                redirect_url,", "            return await self._get_with_redirects(\n                url,")],
   "T6:client.session:GeminiClient._get_with_redirects:hop-bypasses-verification")
-M("C03", "upload-region-diverges", "breaking",
+M("C03", "upload-changed-only-with-verify-ssl", "breaking",
   [(SS, "GeminiClient.upload", "if not is_valid and message == \"changed\":", "if (not is_valid) and message == \"changed\" and self.verify_ssl:")],
-  "client.session:GeminiClient")
+  "T2:client.session:GeminiClient.upload:changed-accepted")
 M("C03", "benign-rename-message", "benign",
   [(SS, GS, "is_valid, message = self.tofu_db.verify(", "is_valid, verdict = self.tofu_db.verify("),
    (SS, GS, "if not is_valid and message == \"changed\":", "if not is_valid and verdict == \"changed\":"),
@@ -718,9 +718,8 @@ M("C13", "future-awaited-unbounded", "breaking",
 M("C13", "transport-not-closed-on-error", "breaking",
   [(SS, "GeminiClient.upload", "        finally:\n            # Ensure transport is closed\n            transport.close()\n", "        else:\n            transport.close()\n")],
   "E4:client.session:GeminiClient.upload:transport-leak")
-M("C13", "titan-sibling-diverges", "breaking",
-  [(CP, "TitanClientProtocol._parse_header", "self.meta = parts[1] if len(parts) > 1 else \"\"", "self.meta = parts[1].strip() if len(parts) > 1 else \"\"")],
-  "E5:client.protocol:TitanClientProtocol._parse_header:sibling-divergence")
+M("C13", "benign-titan-sibling-textual-divergence", "benign",
+  [(CP, "TitanClientProtocol._set_error", "        if not self.response_future.done():\n            self.response_future.set_exception(exc)\n", "        future = self.response_future\n        if not future.done():\n            future.set_exception(exc)\n")])
 M("C13", "benign-tuple-order", "benign",
   [(CP, CL, "except (UnicodeDecodeError, LookupError) as e:", "except (LookupError, UnicodeDecodeError) as e:"),
    (CP, "TitanClientProtocol.connection_lost", "except (UnicodeDecodeError, LookupError) as e:", "except (LookupError, UnicodeDecodeError) as e:")])
@@ -850,3 +849,18 @@ M("C19", "field-path-raw", "breaking",
   "N2:utils.url:parse_url:fields")
 M("C19", "benign-netloc-variable", "benign",
   [(UU, "parse_url", "            f\"{host}:{port}\" if port != DEFAULT_PORT else host,\n", "            (host if port == DEFAULT_PORT else f\"{host}:{port}\"),\n")])
+
+# ---------------------------------------------------------------- later additions (seeded-change lessons)
+M("C03", "await-between-verify-and-trust", "breaking",
+  [(SS, GS, "                    elif message == \"first_use\":\n", "                    elif message == \"first_use\":\n                        await asyncio.sleep(0)\n")],
+  "T8:client.session:GeminiClient._get_single:check-then-pin-not-atomic")
+M("C03", "verify-in-thread", "breaking",
+  [(SS, GS, "                    is_valid, message = self.tofu_db.verify(\n                        parsed.hostname, parsed.port, cert\n                    )\n", "                    is_valid, message = await asyncio.to_thread(\n                        self.tofu_db.verify, parsed.hostname, parsed.port, cert\n                    )\n")],
+  "T8:client.session:GeminiClient._get_single:check-then-pin-not-atomic")
+M("C03", "benign-verify-in-thread-under-lock", "benign",
+  [(SS, GS, "                    is_valid, message = self.tofu_db.verify(\n                        parsed.hostname, parsed.port, cert\n                    )\n", "                    is_valid, message = await asyncio.to_thread(\n                        self.tofu_db.verify, parsed.hostname, parsed.port, cert\n                    )\n"),
+   (SS, GS, "            if self.tofu_db:\n                cert = protocol.get_peer_certificate()\n", "            if self.tofu_db:\n              async with self._tofu_lock:\n                cert = protocol.get_peer_certificate()\n"),
+   (SS, "GeminiClient.__init__", "        self.timeout = timeout\n", "        self.timeout = timeout\n        self._tofu_lock = asyncio.Lock()\n")])
+M("C04", "revert-fix-titan-consult-url-with-params", "breaking",
+  [(P, "GeminiServerProtocol._process_titan_upload", "self.titan_request.parsed_url.normalized,", "self.titan_request.normalized_url,")],
+  "M3:server.protocol:GeminiServerProtocol._process_titan_upload:consult-url")
